@@ -61,8 +61,8 @@ impl Prop for PDelete {
         let left: Vec<bool> = (1..=tree.len()).map(|i| dir_b.join(node_path(&tree, i)).symlink_metadata().is_ok()).collect();
         // nothing but the tree's own nodes may exist or have appeared
         let extra = count_entries(&dir_b) as i64 - left.iter().filter(|x| **x).count() as i64;
-        json!({"matched": split_nul(&ra.out).iter().map(|p| bytes_to_json(p)).collect::<Vec<_>>(),
-               "deleted": split_nul(&rb.out).iter().map(|p| bytes_to_json(p)).collect::<Vec<_>>(),
+        json!({"matched": split_nul(&ra.out).iter().map(|p| bytes_to_json(&unlossy(p, &tree))).collect::<Vec<_>>(),
+               "deleted": split_nul(&rb.out).iter().map(|p| bytes_to_json(&unlossy(p, &tree))).collect::<Vec<_>>(),
                "left": left, "exit": rb.exit, "diag": !rb.stderr.is_empty(), "extra": extra, "exit_twin": ra.exit})
     }
 
@@ -99,6 +99,10 @@ impl Prop for PDelete {
             1 | 2 => json!({"p": "name", "pat": *rng.pick(&[vec![42u32], vec![97, 42], vec![63], vec![42, 98, 42], vec![91, 97, 45, 99, 93, 42], vec![101]])}),
             _ => json!({"p": "none"}),
         };
+        // names that are not valid UTF-8 are removed like any other (the test before -delete then looks at types only)
+        if rng.chance(1, 4) && add_raw_names(&mut v, rng) && v["pre"]["p"] == "name" {
+            v["pre"] = json!({"p": "none"});
+        }
         v
     }
 
